@@ -247,6 +247,52 @@ def run(F, chk):
                               "triangles lie in no partition" % (fn["name"], lst, _paths.render(obj) if obj else "?"))
     chk.floor(R4, 3)
 
+    # ---------------------------------------------------------------- R10.5
+    R5 = chk.rule("R10.5", "a NifFile function that creates a BSDismemberSkinInstance for a shape whose partitions it edits fills the new "
+                           "instance's partition list afterwards: the assignment of `partitions` of a dismember instance follows the "
+                           "creation (a list assigned only on the branch that found an existing instance leaves the freshly converted "
+                           "one empty next to N skin partitions)")
+    DIS = "nifly::BSDismemberSkinInstance"
+    n5 = 0
+
+    def _lc5(n_):
+        try:
+            a_, b_ = (n_.get("loc") or "0:0").split(":")[:2]
+            return (int(a_), int(b_))
+        except ValueError:
+            return (0, 0)
+
+    for fn in sorted(F.fns.values(), key=lambda f: f["id"]):
+        if fn.get("cls") != "nifly::NifFile" or not fn.get("body") or fn.get("tmpl") == "pattern":
+            continue
+        creates = [n for n in walk(fn["body"]) if n["k"] == "Call" and n.get("short") == "make_unique" and DIS in (n.get("t") or n.get("ct") or "") + str(n.get("targs", ""))]
+        if not creates:
+            continue
+        edits_partitions = any(x["k"] == "Member" and x.get("name") == "partitions" and x.get("owner") == "nifly::NiSkinPartition" for x in walk(fn["body"])) or \
+            any(x["k"] == "Call" and x.get("short") in ("GenerateTrueTrianglesFromTriParts", "DeletePartitions") for x in walk(fn["body"]))
+        if not edits_partitions:
+            continue
+        fills = []
+        for n in walk(fn["body"]):
+            tgt = None
+            if n["k"] == "OpCall" and n.get("op") == "=" and n.get("args"):
+                tgt = n["args"][0]
+            elif n["k"] == "Call" and n.get("ext") and n.get("short") in ("push_back", "emplace_back", "resize", "assign") and is_node(n.get("recv")):
+                tgt = n["recv"]
+            while is_node(tgt) and tgt["k"] == "Cast":
+                tgt = tgt["e"]
+            if is_node(tgt) and tgt["k"] == "Member" and tgt.get("name") == "partitions" and tgt.get("owner") == DIS:
+                fills.append(n)
+        for c in creates:
+            n5 += 1
+            ok = any(_lc5(f_) > _lc5(c) for f_ in fills)
+            chk.instance(R5, ok=ok, sample={"fn": fn["name"], "creates_at": c.get("loc"), "list_edits": len(fills)})
+            if not ok:
+                chk.violation("R10.5", "C10/R10.5:%s" % fn["name"].split("(")[0], where(fn, c),
+                              "%s creates a BSDismemberSkinInstance while editing the shape's partitions and never fills its partition "
+                              "list after the creation: the converted instance has 0 entries next to the N skin partitions" % fn["name"])
+    chk.floor(R5, 1)
+
     chk.assumptions += ["exact cover of triangles, the per-game bone limit and weights summing to one are value-level and not decided"]
     chk.extra["explanation"] = ("only the clause 'the dismember partition list stays aligned with the partitions' is decided "
                                 "(sibling agreement of partition-list edits); everything numeric in C10 is not decided")
